@@ -182,3 +182,44 @@ def blocks_must_pass_block(body, target_bb, via_blocks):
     if 0 in via:
         return True
     return target_bb not in seen
+
+
+def region_after(body, fact_pred):
+    """Blocks reachable from the targets of edges all of whose facts satisfy fact_pred.
+    Returns (edge_count, set of blocks)."""
+    starts = []
+    for (s, d, fs) in body.edges():
+        if fs and all(fact_pred(f) for f in fs):
+            starts.append(d)
+    seen = set()
+    for st in starts:
+        seen |= body.reachable_avoiding(None, start=st)
+    return len(starts), seen
+
+
+def field_inits(P, adt_re, field, bodies=None):
+    """(body, site, term) for the operand initialising `field` in every struct literal of the ADT."""
+    out = []
+    for b in (bodies if bodies is not None else P.bodies.values()):
+        if b.raw['promoted'] is not None:
+            continue
+        for s in b.aggregates(adt_re):
+            rv = s.data['rv']
+            if field in rv['fields']:
+                i = rv['fields'].index(field)
+                out.append((b, s, b.operand_term(rv['ops'][i])))
+    return out
+
+
+def written_value(body, site):
+    """Expanded string of the value stored by an assign / call-destination site."""
+    if site.kind in ('assign', 'agg'):
+        return S(body.rvalue_term(site.data['rv']))
+    if site.kind == 'calldest':
+        return S(body.call_term(site.data))
+    return None
+
+
+def N(t):
+    """String of a term with let-bound names kept (identity of a single computed value)."""
+    return tstr(t)
